@@ -17,12 +17,19 @@ Inductive kind :=
 | KArray      (* [u8; N], Box<[u8]>: fixed, len = cap, set_len is a no-op    *)
 | KArrayVec   (* arrayvec::ArrayVec<u8, N>: only grows                       *)
 | KSmallVec   (* smallvec::SmallVec<[u8; N]>: only grows                     *)
-| KBytesMut.  (* bytes::BytesMut: sets exactly, may truncate                 *)
+| KBytesMut   (* bytes::BytesMut: sets exactly, may truncate                 *)
+| KPool.      (* compio_driver::BufferRef: sets min(len, cap), user-set cap  *)
 
-Record root := mkroot { rkind : kind; rcells : list byte; rlen : nat }.
-Definition rcap (r : root) : nat := length (rcells r).
-Definition with_len (r : root) (n : nat) : root := mkroot (rkind r) (rcells r) n.
-Definition with_cells (r : root) (c : list byte) : root := mkroot (rkind r) c (rlen r).
+(* [rlim] is the user-set capacity of a pool buffer (BufferRef::cap, at most the
+   full length of the underlying buffer = length rcells); unused for other kinds *)
+Record root := mkroot { rkind : kind; rcells : list byte; rlen : nat; rlim : nat }.
+Definition rcap (r : root) : nat :=
+  match rkind r with
+  | KPool => Nat.min (rlim r) (length (rcells r))
+  | _ => length (rcells r)
+  end.
+Definition with_len (r : root) (n : nat) : root := mkroot (rkind r) (rcells r) n (rlim r).
+Definition with_cells (r : root) (c : list byte) : root := mkroot (rkind r) c (rlen r) (rlim r).
 
 (* set_len beyond the capacity: Vec aborts (std's unsafe-precondition check of
    a debug build), BytesMut and ArrayVec hit their debug_assert!, the array
@@ -39,6 +46,18 @@ Definition root_set_len (r : root) (k : nat) : R root :=
   | KSmallVec =>
       if rlen r <? k then (if k <=? rcap r then Ok (with_len r k) else Panic P_SET_LEN)
       else Ok r
+  | KPool => Ok (with_len r (Nat.min k (rcap r)))
+  end.
+
+(* BufferRef::set_capacity(n) (compio-driver/src/buffer_pool.rs): nothing for 0,
+   otherwise cap = min(n, full length), len = min(len, cap).  [n] is a usize. *)
+Definition pool_set_capacity (n : N) (r : root) : root :=
+  match rkind r with
+  | KPool =>
+    if N.eqb n 0 then r else
+    let c := N.to_nat (N.min n (N.of_nat (length (rcells r)))) in
+    mkroot KPool (rcells r) (Nat.min (rlen r) c) c
+  | _ => r
   end.
 
 Definition root_set_len_k (k : nat) (r : root) : R root := root_set_len r k.
@@ -55,6 +74,20 @@ Inductive view :=
 | VBase
 | VSlice (v : view) (b : nat) (e : option nat)   (* Slice { buffer, begin, end } *)
 | VUninit (v : view) (b : nat).                  (* Uninit(Slice { buffer, begin: b, end: None }) *)
+
+(* Slice<Slice<T>>::flatten (slice.rs): begin = large.begin + small.begin,
+   end by the four combinations of the two optional ends *)
+Definition flatten_view (v : view) : option view :=
+  match v with
+  | VSlice (VSlice v0 b1 e1) b2 e2 =>
+    let e := match e2, e1 with
+             | Some s, Some l => Some (Nat.min (b1 + s) l)
+             | Some s, None => Some (b1 + s)
+             | None, l => l
+             end in
+    Some (VSlice v0 (b1 + b2) e)
+  | _ => None
+  end.
 
 (* &bytes[b .. min(e.unwrap_or(len), len)] of the range (o, len) *)
 Definition sub_range (rg : nat * nat) (b : nat) (e : option nat) : R (nat * nat) :=
